@@ -100,3 +100,12 @@ Theorem C11_sessions_read_back_as_union : forall c ops s e,
   read ExactRational (rc_of c') (map (to_rfile c') (all_files st')) s e = runs (s_map s') s e.
 Proof. exact sessions_roundtrip. Qed.
 Print Assumptions C11_sessions_read_back_as_union.
+
+(* ---- T17: the sources this property rests on keep no state outside the objects the model has (no static locals
+   or mutable globals in C, no class-level / module-level containers, `global` rebinding or cache decorators in
+   Python): the list of such sites, regenerated from the sources on every run, is empty *)
+From Coq Require Import String List.
+From DRF Require Import Gen.StateSites Proofs.StateSitesProofs.
+Theorem C11_no_state_outside_the_modelled_objects : state_sites_c_library = @nil string /\ state_sites_extension = @nil string /\ state_sites_rf_python = @nil string /\ state_sites_listing = @nil string.
+Proof. repeat split; first [exact no_state_outside_objects_c_library | exact no_state_outside_objects_extension | exact no_state_outside_objects_rf_python | exact no_state_outside_objects_listing]. Qed.
+Print Assumptions C11_no_state_outside_the_modelled_objects.
